@@ -11,6 +11,7 @@ Section SpecInd.
   Hypothesis HList : forall p cs, Forall P cs -> P (SList p cs).
   Hypothesis HSeq : forall cs, Forall P cs -> P (SSeq cs).
   Hypothesis HCatch : forall c, P c -> P (SCatch c).
+  Hypothesis HAll : forall cs, Forall P cs -> P (SAll cs).
   Fixpoint spec_ind' (s : spec) : P s :=
     match s with
     | SLeaf z => HLeaf z
@@ -20,6 +21,8 @@ Section SpecInd.
     | SSeq cs => HSeq cs ((fix go l := match l return Forall P l with
                                        | [] => Forall_nil _ | x :: r => Forall_cons _ (spec_ind' x) (go r) end) cs)
     | SCatch c => HCatch c (spec_ind' c)
+    | SAll cs => HAll cs ((fix go l := match l return Forall P l with
+                                       | [] => Forall_nil _ | x :: r => Forall_cons _ (spec_ind' x) (go r) end) cs)
     end.
 End SpecInd.
 
@@ -52,9 +55,18 @@ Proof.
     cbn [admb]; induction cs as [|c cs IH]; cbn [kosk]; try reflexivity; now rewrite IH.
 Qed.
 
+Lemma admb_all cs o : admb (SAll cs) o =
+  match o with Ok (VList vs) => okgo cs vs | Ko e => kosk e cs | _ => false end.
+Proof.
+  destruct o as [[z|vs|e]|e]; try reflexivity;
+    cbn [admb]; induction cs as [|c cs IH]; cbn [kosk]; try reflexivity; now rewrite IH.
+Qed.
+
 Lemma fails_list p cs : fails (SList p cs) = failsex cs.
 Proof. try reflexivity; cbn [fails]; induction cs as [|c cs IH]; cbn [failsex]; try reflexivity; now rewrite IH. Qed.
 Lemma fails_seq cs : fails (SSeq cs) = failsex cs.
+Proof. try reflexivity; cbn [fails]; induction cs as [|c cs IH]; cbn [failsex]; try reflexivity; now rewrite IH. Qed.
+Lemma fails_all cs : fails (SAll cs) = failsex cs.
 Proof. try reflexivity; cbn [fails]; induction cs as [|c cs IH]; cbn [failsex]; try reflexivity; now rewrite IH. Qed.
 
 (** a spec either fails (admits only errors, at least one) or succeeds (admits only values, at least one) *)
@@ -97,31 +109,40 @@ Qed.
 
 Lemma fails_spec s : FS s.
 Proof.
-  induction s as [z|e|p cs IH|cs IH|c IH] using spec_ind'; unfold FS.
+  induction s as [z|e|p cs IH|cs IH|c IH|cs IH] using spec_ind'; unfold FS.
   - split; [discriminate|]. intros _. split; [eexists; constructor|]. intros e H; inversion H.
   - split; [|discriminate]. intros _. split; [eexists; constructor|]. intros v H; inversion H.
   - rewrite fails_list. split; intros Hf.
     + split.
       * destruct (l_first_fail cs IH Hf) as (pre & c & post & vs & e & -> & _ & Hc).
         exists e. apply (adm_list_ko p _ c e); auto. apply in_or_app. right. now left.
-      * intros v H. inversion H as [ | |p0 cs0 vs0 HF| | | | | ]; subst. eapply l_no_ok; eauto.
+      * intros v H. inversion H as [ | |p0 cs0 vs0 HF| | | | | | | ]; subst. eapply l_no_ok; eauto.
     + split.
       * destruct (l_all_ok cs IH Hf) as (vs & Hvs). eexists. apply adm_list_ok. exact Hvs.
-      * intros e H. inversion H as [ | | |p0 cs0 c0 e0 Hin Hc| | | | ]; subst. eapply l_no_ko; eauto.
+      * intros e H. inversion H as [ | | |p0 cs0 c0 e0 Hin Hc| | | | | | ]; subst. eapply l_no_ko; eauto.
   - rewrite fails_seq. split; intros Hf.
     + split.
       * destruct (l_first_fail cs IH Hf) as (pre & c & post & vs & e & -> & Hpre & Hc).
         exists e. eapply adm_seq_ko; eauto.
-      * intros v H. inversion H as [ | | | |cs0 vs0 HF| | | ]; subst. eapply l_no_ok; eauto.
+      * intros v H. inversion H as [ | | | |cs0 vs0 HF| | | | | ]; subst. eapply l_no_ok; eauto.
     + split.
       * destruct (l_all_ok cs IH Hf) as (vs & Hvs). eexists. apply adm_seq_ok. exact Hvs.
-      * intros e H. inversion H as [ | | | | |cs0 pre c0 post vs0 e0 Heq Hpre Hc| | ]; subst.
+      * intros e H. inversion H as [ | | | | |cs0 pre c0 post vs0 e0 Heq Hpre Hc| | | | ]; subst.
         eapply (l_no_ko _ IH Hf c0 e); eauto. apply in_or_app. right. now left.
   - split; [discriminate|]. intros _. split.
     + destruct (fails c) eqn:Fc.
       * destruct (proj1 IH Fc) as [(e & He) _]. eexists. apply adm_catch_ko. exact He.
       * destruct (proj2 IH Fc) as [(v & Hv) _]. eexists. apply adm_catch_ok. exact Hv.
     + intros e H. inversion H.
+  - rewrite fails_all. split; intros Hf.
+    + split.
+      * destruct (l_first_fail cs IH Hf) as (pre & c & post & vs & e & -> & Hpre & Hc).
+        exists e. eapply adm_all_ko; eauto.
+      * intros v H. inversion H as [ | | | | | | | |cs0 vs0 HF| ]; subst. eapply l_no_ok; eauto.
+    + split.
+      * destruct (l_all_ok cs IH Hf) as (vs & Hvs). eexists. apply adm_all_ok. exact Hvs.
+      * intros e H. inversion H as [ | | | | | | | | |cs0 pre c0 post vs0 e0 Heq Hpre Hc]; subst.
+        eapply (l_no_ko _ IH Hf c0 e); eauto. apply in_or_app. right. now left.
 Qed.
 
 Lemma fails_false_no_ko s e : fails s = false -> ~ adm s (Ko e).
@@ -178,7 +199,7 @@ Qed.
 
 Theorem admb_adm s : DEC s.
 Proof.
-  induction s as [z|e|p cs IH|cs IH|c IH] using spec_ind'; intros o.
+  induction s as [z|e|p cs IH|cs IH|c IH|cs IH] using spec_ind'; intros o.
   - destruct o as [[z'|l0|e']|e']; simpl; split; intros H; try discriminate; try (inversion H; fail).
     + apply Z.eqb_eq in H. subst. constructor.
     + inversion H; subst. apply Z.eqb_refl.
@@ -191,26 +212,34 @@ Proof.
       split; intros H.
       * apply andb_true_iff in H. destruct H as [H1 H2]. apply Z.eqb_eq in H1. subst.
         apply adm_list_ok. apply (okgo_spec cs IH). exact H2.
-      * inversion H as [ | |p0 cs0 vs0 HF| | | | | ]; subst. apply andb_true_iff. split; [apply Z.eqb_refl|].
+      * inversion H as [ | |p0 cs0 vs0 HF| | | | | | | ]; subst. apply andb_true_iff. split; [apply Z.eqb_refl|].
         apply (okgo_spec cs IH). exact HF.
     + split; [discriminate|inversion 1].
     + rewrite (koex_spec e' cs IH). split.
       * intros (c & Hin & Hc). eapply adm_list_ko; eauto.
-      * intros H. inversion H as [ | | |p0 cs0 c0 e0 Hin Hc| | | | ]; subst. eauto.
+      * intros H. inversion H as [ | | |p0 cs0 c0 e0 Hin Hc| | | | | | ]; subst. eauto.
   - rewrite admb_seq. destruct o as [[z'|vs|e']|e'].
     + split; [discriminate|inversion 1].
     + rewrite (okgo_spec cs IH). split; intros H; [now apply adm_seq_ok|].
-      inversion H as [ | | | |cs0 vs0 HF| | | ]; subst. exact HF.
+      inversion H as [ | | | |cs0 vs0 HF| | | | | ]; subst. exact HF.
     + split; [discriminate|inversion 1].
     + rewrite (kosk_spec e' cs IH). split.
       * intros (pre & c & post & vs & E & Hpre & Hc). eapply adm_seq_ko; eauto.
-      * intros H. inversion H as [ | | | | |cs0 pre c0 post vs0 e0 Heq Hpre Hc| | ]; subst. eauto 8.
+      * intros H. inversion H as [ | | | | |cs0 pre c0 post vs0 e0 Heq Hpre Hc| | | | ]; subst. eauto 8.
   - destruct o as [v|e']; cbn [admb].
     + split; intros H.
       * apply orb_true_iff in H. destruct H as [H|H]; [apply adm_catch_ok; apply IH; exact H|].
         destruct v as [z|l0|e]; try discriminate. apply adm_catch_ko. apply IH. exact H.
-      * apply orb_true_iff. inversion H as [ | | | | | |c0 v0 Hc|c0 e0 Hc]; subst.
+      * apply orb_true_iff. inversion H as [ | | | | | |c0 v0 Hc|c0 e0 Hc| | ]; subst.
         -- left. apply IH. exact Hc.
         -- right. apply IH. exact Hc.
     + split; [discriminate|inversion 1].
+  - rewrite admb_all. destruct o as [[z'|vs|e']|e'].
+    + split; [discriminate|inversion 1].
+    + rewrite (okgo_spec cs IH). split; intros H; [now apply adm_all_ok|].
+      inversion H as [ | | | | | | | |cs0 vs0 HF| ]; subst. exact HF.
+    + split; [discriminate|inversion 1].
+    + rewrite (kosk_spec e' cs IH). split.
+      * intros (pre & c & post & vs & E & Hpre & Hc). eapply adm_all_ko; eauto.
+      * intros H. inversion H as [ | | | | | | | | |cs0 pre c0 post vs0 e0 Heq Hpre Hc]; subst. eauto 8.
 Qed.
